@@ -20,6 +20,7 @@ type Obligation struct {
 	Goal   string
 	Info   string
 	Path   int
+	Log    string
 	Cover  bool // reachability cover: expected sat
 	Result string
 	Ms     int64
@@ -83,7 +84,7 @@ func (vc *FuncVC) addObligation(kind string, st *State, goal, info string) {
 		}
 	}
 	vc.obls = append(vc.obls, &Obligation{Name: vc.name + "#" + kind, Func: vc.name, Kind: kind, NDecl: len(vc.g.decls),
-		PC: pc, Goal: goal, Info: info, Path: vc.paths})
+		PC: pc, Goal: goal, Info: info, Path: vc.paths, Log: strings.Join(st.pathLog, " ")})
 }
 
 func (vc *FuncVC) findLoops() {
@@ -631,6 +632,12 @@ func (vc *FuncVC) frameGoals(st *State, hs []string) map[string]string {
 	oldEnv := st.specEnv(vc.pkg, vc.entryVars)
 	oldEnv.heaps = st.old
 	for _, m := range con.Modifies {
+		if hs, ok := vc.mapHeapsOf(oldEnv, m); ok {
+			for _, h := range hs {
+				whole[h] = true
+			}
+			continue
+		}
 		if hn, ok := modHeapName(m); ok {
 			for _, h := range vc.heapsOfName(vc.pkg, hn) {
 				whole[h] = true
